@@ -126,8 +126,16 @@ pub fn main(args: &[String]) -> i32 {
             }
         }
     }
-    if which == "parser" {
+    if which == "parser" || which == "process_file" {
         let r = catch(|| {
+            if which == "process_file" {
+                // the deprecated entry point: same settings, input and output given as arguments
+                let b = config_parser(CTParserBuilder::<DefaultLexerTypes<u32>>::new(), &o);
+                let mut b = b;
+                #[allow(deprecated)]
+                let r = b.process_file(&gpath, &gout).map(|_| true).map_err(|e| e.to_string());
+                return r;
+            }
             let b = CTParserBuilder::<DefaultLexerTypes<u32>>::new().grammar_path(&gpath).output_path(&gout);
             let b = config_parser(b, &o);
             b.build().map(|p| p.regenerated()).map_err(|e| e.to_string())
